@@ -115,7 +115,14 @@ class Picker:
         scope = s["scope"]
         if t["k"] == "atomic" and t["code"] == 0xD3:                       # BOOL array
             nb = 32 * d[0]
-            k = rnd.randint(0, 5)
+            k = rnd.randint(0, 8)
+            if k == 6:                                                          # boundary: the last bit, ranges ending at the end
+                return R([(s["name"], [nb - 1])], scope), t, 1, "boolarr-elem"
+            if k == 7:
+                i = rnd.choice([0, nb - 32, 32 if nb > 32 else 0, nb - 1, nb - 2])
+                return R([(s["name"], [i])], scope, count=nb - i), t, 1, "boolarr-aligned" if i % 32 == 0 else "boolarr-range"
+            if k == 8:
+                return R([(s["name"], [])], scope, count=rnd.choice([nb, 32, nb - 1])), t, 1, "boolarr-aligned"
             if k == 0:
                 return R([(s["name"], [])], scope), t, 1, "boolarr"
             if k <= 2:
